@@ -328,6 +328,7 @@ func FailedCall() {
 func init() {
 	vrt.Register("C16_generated_functions", GeneratedFunctions)
 	vrt.Register("C16_returned_collections", ReturnedCollections)
+	vrt.Register("C16_names_rebound", NamesRebound)
 }
 
 func GeneratedFunctions() {
@@ -420,5 +421,35 @@ func ReturnedCollections() {
 	vrt.Note("want", want)
 	vrt.Assert((err == nil) == (werr == nil), "a returned collection behaves like the literal: same verdict: "+lit)
 	vrt.Assert(got == want, "a returned collection behaves like the literal it was returned as: "+lit)
+	vrt.Cover("done")
+}
+
+// ---- a name in call position denotes whatever function is bound to it at that
+// moment: the same parameter / loop variable / let name bound to different
+// functions one after the other (higher-order calls repeated with other
+// functions, a parameter named like a function that was already called, a loop
+// over stored functions, a let that replaces a function)
+func NamesRebound() {
+	x := vrt.Int()
+	ctx := plush.NewContext()
+	ctx.Set("x", x)
+	const defs = "<% let inc = fn(n) { return n + 1 } %><% let dbl = fn(n) { return n + n } %><% let neg = fn(n) { return 0 - n } %><% let apply = fn(f, v) { return f(v) } %>"
+	i1, d, n := strconv.Itoa(x+1), strconv.Itoa(x+x), strconv.Itoa(0-x)
+	type cs struct{ in, want string }
+	cases := []cs{
+		{"<%= apply(inc, x) %>;<%= apply(dbl, x) %>;<%= apply(inc, x) %>;<%= apply(neg, x) %>", i1 + ";" + d + ";" + i1 + ";" + n},
+		{"<%= inc(x) %>;<% let call = fn(inc) { return inc(x) } %><%= call(dbl) %>;<%= inc(x) %>;<%= call(neg) %>", i1 + ";" + d + ";" + i1 + ";" + n},
+		{"<%= for (f) in [inc, dbl, neg, inc] { %><%= f(x) %>;<% } %>", i1 + ";" + d + ";" + n + ";" + i1 + ";"},
+		{"<% let f = inc %><%= f(x) %>;<% let f = dbl %><%= f(x) %>;<% f = neg %><%= f(x) %>", i1 + ";" + d + ";" + n},
+		{"<% let twice = fn(g, v) { return g(g(v)) } %><%= twice(inc, x) %>;<%= twice(neg, x) %>;<%= twice(dbl, 1) %>", strconv.Itoa(x+2) + ";" + strconv.Itoa(0-(0-x)) + ";4"},
+		{"<% let pick = fn(k) { if (k == 0) { return inc } return dbl } %><% let g = pick(0) %><%= g(x) %>;<% let g = pick(1) %><%= g(x) %>", i1 + ";" + d},
+	}
+	c := cases[vrt.Choice(len(cases))]
+	in := defs + c.in
+	vrt.Note("input", in)
+	got, err := plush.Render(in, ctx)
+	vrt.Note("got", got)
+	vrt.Assert(err == nil, "functions passed on, stored and rebound render")
+	vrt.Assert(got == c.want, "a call runs the function its name is bound to at that moment")
 	vrt.Cover("done")
 }
